@@ -741,6 +741,11 @@ thread_local! {
     pub static LAST_PANIC: RefCell<Option<String>> = RefCell::new(None);
 }
 
+/// The message and location of the last panic seen on this thread.
+pub fn last_panic() -> Option<String> {
+    LAST_PANIC.with(|p| p.borrow().clone())
+}
+
 pub fn install_quiet_panic_hook() {
     static ONCE: AtomicBool = AtomicBool::new(false);
     if ONCE.swap(true, Ordering::SeqCst) {
